@@ -115,6 +115,9 @@ def coq_expr(pid, s, r, suffix=""):
     if r["bobs"] is None or r["sched"] is None:
         return None
     sched = "[" + "; ".join(map(str, r["sched"])) + "]"
+    if getattr(s, "ra", False):
+        # second comparison (release-atomic schedules, runs of releases compared as sets): coq/BMonitors.v
+        return f"check_{pid}_ra ({s.coq_b(*r['adr'])}) {sched} ({hl.bobs_coq(r['bobs'])})"
     if pid == "C01" and not suffix:
         # check_C01': + acyclic lock-order graph of the implementation's execution (also reported on its own: a cyclic
         # graph marks the scenario as the best candidate for the search of a deadlocking schedule)
@@ -165,6 +168,16 @@ def _sched_variants(s, rng, n, tag):
         v.meta = dict(s.meta, pct=i % 2 == 0, nt=nt)
         out.append(v)
     return out
+
+
+def release_atomic(s):
+    """the same scenario under release-atomic scheduling (tools/runcheck.py step 4a)"""
+    import copy
+    v = copy.copy(s)
+    v.sid = s.sid + "_ra"
+    v.ra = True
+    v.meta = dict(s.meta, ra=True)
+    return v
 
 
 def deepen(pid, s, rng, n=300):
